@@ -49,6 +49,8 @@ struct Store {
     files: HashMap<String, (Vec<CASReconstructionTerm>, HashMap<HexMerkleHash, Vec<CASReconstructionFetchInfo>>)>,
     /// misbehaviour of the blob store for a path
     faults: HashMap<String, StoreFault>,
+    /// the batch reconstruction endpoint leaves this file (hex) out of its answer
+    batch_omits: Option<String>,
 }
 
 #[derive(Clone, Copy, Debug, PartialEq)]
@@ -118,6 +120,35 @@ fn serve(mut stream: TcpStream, store: Arc<Mutex<Store>>) {
         }
         let target = request_line.split_whitespace().nth(1).unwrap_or("/").to_string();
         let path = target.split('?').next().unwrap_or("/").to_string();
+        if path == "/reconstructions" {
+            // batch query: /reconstructions?file_id=<hex>&file_id=<hex>...
+            let ids: Vec<String> = target.split('?').nth(1).unwrap_or("").split('&').filter_map(|kv| kv.strip_prefix("file_id=")).map(|v| v.to_string()).collect();
+            let json = {
+                let s = store.lock().unwrap();
+                let mut files = HashMap::new();
+                let mut fetch_info: HashMap<HexMerkleHash, Vec<CASReconstructionFetchInfo>> = HashMap::new();
+                let mut known = true;
+                for id in &ids {
+                    if s.batch_omits.as_deref() == Some(id.as_str()) {
+                        continue;
+                    }
+                    match (s.files.get(id), MerkleHash::from_hex(id)) {
+                        (Some((terms, fetch)), Ok(h)) => {
+                            files.insert(HexMerkleHash::from(h), terms.clone());
+                            for (k, v) in fetch { fetch_info.entry(*k).or_default().extend(v.iter().cloned()); }
+                        },
+                        _ => known = false,
+                    }
+                }
+                if known { serde_json::to_string(&cas_types::BatchQueryReconstructionResponse { files, fetch_info }).ok() } else { None }
+            };
+            let (status, body) = match json { Some(j) => ("200 OK", j), None => ("404 Not Found", "{}".to_string()) };
+            let response = format!("HTTP/1.1 {status}\r\nContent-Length: {}\r\nContent-Type: application/json\r\n\r\n{body}", body.len());
+            if stream.write_all(response.as_bytes()).is_err() {
+                return;
+            }
+            continue;
+        }
         if let Some(file) = path.strip_prefix("/reconstruction/") {
             let json = {
                 let s = store.lock().unwrap();
@@ -318,19 +349,34 @@ fn new_client(env: &Env, cache: Option<&CacheConfig>) -> Arc<RemoteClient> {
     Arc::new(RemoteClient::new(env.tp.clone(), "http://127.0.0.1:9", None, &None, &cache.cloned(), PathBuf::new(), false))
 }
 
+/// progress updater that adds up the increments: after a successful call their sum must be the reported length
+#[derive(Debug, Default)]
+struct Progress(std::sync::atomic::AtomicU64);
+impl utils::progress::ProgressUpdater for Progress {
+    fn update(&self, increment: u64) {
+        self.0.fetch_add(increment, std::sync::atomic::Ordering::SeqCst);
+    }
+}
+fn progress_check(n: u64, p: &Progress) -> Result<u64, String> {
+    let sum = p.0.load(std::sync::atomic::Ordering::SeqCst);
+    if sum == n { Ok(n) } else { Err(format!("returns Ok({n}) but the progress updater was told about {sum} bytes in total")) }
+}
+
 #[allow(clippy::too_many_arguments)]
 fn reconstruct(env: &Env, client: &Arc<RemoteClient>, parallel: bool, terms: Vec<CASReconstructionTerm>, fetch: Arc<HashMap<HexMerkleHash, Vec<CASReconstructionFetchInfo>>>, offset: u64, range: Option<FileRange>, out: PathBuf) -> Result<u64, String> {
     let client = client.clone();
+    let progress = Arc::new(Progress::default());
+    let p2 = progress.clone();
     let r = env.tp.external_run_async_task(async move {
         let output = OutputProvider::File(FileProvider::new(out));
         if parallel {
-            client.reconstruct_file_to_writer_parallel(terms, fetch, offset, range, &output, None).await
+            client.reconstruct_file_to_writer_parallel(terms, fetch, offset, range, &output, Some(p2)).await
         } else {
-            client.reconstruct_file_to_writer(terms, fetch, offset, range, &output, None).await
+            client.reconstruct_file_to_writer(terms, fetch, offset, range, &output, Some(p2)).await
         }
     });
     match r {
-        Ok(Ok(n)) => Ok(n),
+        Ok(Ok(n)) => progress_check(n, &progress),
         Ok(Err(e)) => Err(format!("returns the error: {e}")),
         Err(e) => Err(format!("panics / is aborted: {e}")),
     }
@@ -457,12 +503,14 @@ fn run_plan(env: &Env, rng: &mut StdRng, plan: &Plan, note: &str, stale_every: u
 
 fn get_file_run(env: &Env, client: &Arc<RemoteClient>, hash: MerkleHash, range: Option<FileRange>, out: PathBuf) -> Result<u64, String> {
     let client = client.clone();
+    let progress = Arc::new(Progress::default());
+    let p2 = progress.clone();
     let r = env.tp.external_run_async_task(async move {
         let output = OutputProvider::File(FileProvider::new(out));
-        client.get_file(&hash, range, &output, None).await
+        client.get_file(&hash, range, &output, Some(p2)).await
     });
     match r {
-        Ok(Ok(n)) => Ok(n),
+        Ok(Ok(n)) => progress_check(n, &progress),
         Ok(Err(e)) => Err(format!("returns the error: {e}")),
         Err(e) => Err(format!("panics / is aborted: {e}")),
     }
@@ -563,6 +611,135 @@ fn faulty_store_section(env: &Env, rng: &mut StdRng, base: &str, store: &Arc<Mut
             }
         }
         store.lock().unwrap().faults.remove(&x.path);
+    }
+}
+
+// ---------------------------------------------------------------------------------------------------------------------------------
+// invalid plans and a failing store at the first / a middle / the last term: the call must return an error (or the right bytes),
+// never Ok with a wrong output, and the same client (and chunk cache) must deliver the right bytes once the fault is gone
+// ---------------------------------------------------------------------------------------------------------------------------------
+
+static RETRY_FILES: std::sync::atomic::AtomicUsize = std::sync::atomic::AtomicUsize::new(0);
+
+fn error_path_section(env: &Env, rng: &mut StdRng, base: &str, store: &Arc<Mutex<Store>>, plan_id: u64) {
+    let mut p = make_plan(rng, base, store, plan_id, "error paths", 3, 7, FetchStyle::WholeXorb, false);
+    // terms 0, 3 and 6 are the victims: each the only term of its xorb, chunks [1, 3)
+    for (t, x) in [(0usize, 0usize), (3, 1), (6, 2)] {
+        p.terms[t] = (x, 1, 3);
+    }
+    for t in [1usize, 2, 4, 5] {
+        let x = t % 3;
+        let n = p.xorbs[x].chunks.len() as u32;
+        p.terms[t] = (x, 0, n.min(2 + t as u32));
+    }
+    // (terms 1,2,4,5 reuse the victims' xorbs; every fault below is applied to a dedicated 4th..6th xorb instead, so that only the
+    // victim term is affected)
+    let extra = make_plan(rng, base, store, plan_id + 1, "error paths (victim xorbs)", 3, 1, FetchStyle::WholeXorb, false);
+    let base_x = p.xorbs.len();
+    p.xorbs.extend(extra.xorbs);
+    for (k, t) in [0usize, 3, 6].into_iter().enumerate() {
+        p.terms[t] = (base_x + k, 1, 3);
+    }
+    p.fetch = make_fetch(rng, base, &p, FetchStyle::WholeXorb);
+    let expected: Vec<u8> = (0..p.terms.len()).flat_map(|t| p.term_data(t)).collect();
+    let faults = ["the term's xorb is missing from fetch_info", "no fetch range of the xorb contains the term", "the term's chunk range has end < start", "the term's unpacked_length is one too large", "the term's unpacked_length is one too small", "the blob store answers 404 for the term's xorb", "the stored xorb has a chunk header with version byte 7 inside the term's range", "the fetch url is not a url"];
+    for fault in faults {
+        for (pos, victim) in [("first", 0usize), ("a middle", 3), ("the last", 6)] {
+            let x = &p.xorbs[p.terms[victim].0];
+            let hx: HexMerkleHash = x.hash.into();
+            for parallel in [false, true] {
+                for with_cache in [false, true] {
+                    let cache_dir = tempfile::tempdir().unwrap();
+                    let cfg = CacheConfig { cache_directory: cache_dir.path().to_path_buf(), cache_size: 1 << 30 };
+                    let client = if with_cache { new_client(env, Some(&cfg)) } else { env.plain.lock().unwrap().get_or_insert_with(|| new_client(env, None)).clone() };
+                    let mut terms = p.api_terms(0, p.terms.len());
+                    let mut fetch = p.fetch.clone();
+                    let good_blob = store.lock().unwrap().blobs.get(&x.path).cloned().unwrap();
+                    match fault {
+                        "the term's xorb is missing from fetch_info" => { fetch.remove(&hx); },
+                        "no fetch range of the xorb contains the term" => { fetch.insert(hx, vec![fetch_entry(base, x, 0, 2, ""), fetch_entry(base, x, 2, x.chunks.len() as u32, "")]); },
+                        "the term's chunk range has end < start" => terms[victim].range = ChunkRange { start: 3, end: 1 },
+                        "the term's unpacked_length is one too large" => terms[victim].unpacked_length += 1,
+                        "the term's unpacked_length is one too small" => terms[victim].unpacked_length -= 1,
+                        "the blob store answers 404 for the term's xorb" => { store.lock().unwrap().blobs.remove(&x.path); },
+                        "the stored xorb has a chunk header with version byte 7 inside the term's range" => { let mut b = (*good_blob).clone(); b[x.stored_end[0]] = 7; store.lock().unwrap().blobs.insert(x.path.clone(), Arc::new(b)); },
+                        _ => { fetch.insert(hx, vec![CASReconstructionFetchInfo { url: "this is not a url".into(), ..fetch_entry(base, x, 0, x.chunks.len() as u32, "") }]); },
+                    }
+                    let writer = if parallel { "reconstruct_file_to_writer_parallel" } else { "reconstruct_file_to_writer" };
+                    let ctx = format!("{}; {fault} - for {pos} term (#{victim}); {writer}, {}", p.describe(), if with_cache { "empty chunk cache" } else { "no chunk cache" });
+                    let out = env.scratch.path().join(format!("errpath-{}.bin", RETRY_FILES.fetch_add(1, std::sync::atomic::Ordering::Relaxed)));
+                    match reconstruct(env, &client, parallel, terms, Arc::new(fetch), 0, None, out.clone()) {
+                        Ok(n) => {
+                            let got = std::fs::read(&out).unwrap_or_default();
+                            if got != expected || n != expected.len() as u64 {
+                                witness(format!("{ctx}: the call returns Ok({n}) although the plan / the store is broken, and the output ({} bytes) is not the term data ({} bytes)", got.len(), expected.len()));
+                            }
+                        },
+                        Err(e) if e.starts_with("panics") => witness(format!("{ctx}: the call {e} (an error return is expected)")),
+                        Err(_) => {},
+                    }
+                    // the fault is gone: the same client (and cache) must now deliver the file
+                    // (into ANOTHER output file: when the parallel writer returns an error its remaining term tasks are neither
+                    // cancelled nor awaited and may still write into the first file - observed on HEAD, outside the property)
+                    store.lock().unwrap().blobs.insert(x.path.clone(), good_blob);
+                    let out = env.scratch.path().join(format!("errpath-retry-{}.bin", RETRY_FILES.fetch_add(1, std::sync::atomic::Ordering::Relaxed)));
+                    let r = reconstruct(env, &client, parallel, p.api_terms(0, p.terms.len()), Arc::new(p.fetch.clone()), 0, None, out.clone());
+                    check_output(&format!("{ctx}; then the SAME client is given the intact plan and store"), r, &out, &expected, None);
+                    let _ = std::fs::remove_file(&out);
+                }
+            }
+        }
+    }
+    // an empty plan: nothing to write, 0 reported (the sequential writer creates an empty output file, the parallel writer none: pinned)
+    for parallel in [false, true] {
+        let out = env.scratch.path().join("empty-plan.bin");
+        let _ = std::fs::remove_file(&out);
+        let client = new_client(env, None);
+        match reconstruct(env, &client, parallel, vec![], Arc::new(HashMap::new()), 0, None, out.clone()) {
+            Ok(0) if std::fs::read(&out).map(|d| d.is_empty()).unwrap_or(true) => {},
+            other => witness(format!("plan without terms, no byte range, {}: result {other:?}, output file {:?} bytes (expected Ok(0) and no / an empty file)", if parallel { "reconstruct_file_to_writer_parallel" } else { "reconstruct_file_to_writer" }, std::fs::read(&out).map(|d| d.len()).ok())),
+        }
+    }
+}
+
+/// batch_get_file: several files in one call, answered by the batch reconstruction endpoint
+fn batch_section(env: &Env, base: &str, store: &Arc<Mutex<Store>>, plans: &[Plan]) {
+    let client = Arc::new(RemoteClient::new(env.tp.clone(), base, None, &None, &None, PathBuf::new(), false));
+    let files: Vec<(MerkleHash, Vec<u8>)> = plans.iter().map(|plan| {
+        let hash = compute_data_hash(format!("file of plan {}", plan.name).as_bytes());
+        store.lock().unwrap().files.insert(hash.hex(), (plan.api_terms(0, plan.terms.len()), plan.fetch.clone()));
+        (hash, (0..plan.terms.len()).flat_map(|t| plan.term_data(t)).collect())
+    }).collect();
+    for omit in [None, Some(files[1].0.hex())] {
+        store.lock().unwrap().batch_omits = omit.clone();
+        let outs: Vec<PathBuf> = (0..files.len()).map(|i| env.scratch.path().join(format!("batch-{i}.bin"))).collect();
+        for o in &outs { let _ = std::fs::remove_file(o); }
+        let (c2, hashes, outs2) = (client.clone(), files.iter().map(|f| f.0).collect::<Vec<_>>(), outs.clone());
+        let r = env.tp.external_run_async_task(async move {
+            let providers: Vec<OutputProvider> = outs2.into_iter().map(|o| OutputProvider::File(FileProvider::new(o))).collect();
+            let map: HashMap<MerkleHash, &OutputProvider> = hashes.iter().cloned().zip(providers.iter()).collect();
+            c2.batch_get_file(map).await
+        });
+        let ctx = format!("RemoteClient::batch_get_file for {} files of {:?} bytes{}", files.len(), files.iter().map(|f| f.1.len()).collect::<Vec<_>>(), if omit.is_some() { ", the CAS answer leaves the second file out" } else { "" });
+        match (r, &omit) {
+            (Ok(Ok(n)), None) => {
+                let total: usize = files.iter().map(|f| f.1.len()).sum();
+                if n != total as u64 { witness(format!("{ctx}: reports {n} bytes, the files have {total}")); }
+                for (i, (_, want)) in files.iter().enumerate() {
+                    if std::fs::read(&outs[i]).unwrap_or_default() != *want { witness(format!("{ctx}: the output of file #{i} differs from its term data")); }
+                }
+            },
+            (Ok(Ok(n)), Some(_)) => witness(format!("{ctx}: returns Ok({n}) although one requested file is missing from the answer")),
+            (Ok(Err(e)), None) => witness(format!("{ctx}: fails: {e}")),
+            (Err(e), _) => witness(format!("{ctx}: panics / is aborted: {e}")),
+            (Ok(Err(_)), Some(_)) => {},
+        }
+    }
+    store.lock().unwrap().batch_omits = None;
+    // a file the CAS does not know
+    let out = env.scratch.path().join("unknown.bin");
+    if let Ok(n) = get_file_run(env, &client, compute_data_hash(b"no such file"), None, out) {
+        witness(format!("RemoteClient::get_file for a file hash the CAS answers 404 for returns Ok({n})"));
     }
 }
 
@@ -668,25 +845,39 @@ fn main() {
         make_plan(rng, &base, &store, plan_id, name, nx, nt, style, eq)
     };
     use FetchStyle::*;
-    // 0. get_file with the sequential writer runs in a child process (the switch is read once per process)
-    let getfile_only = std::env::args().any(|a| a == "--getfile-only");
-    let child = if getfile_only { None } else {
-        let mut cmd = std::process::Command::new(std::env::current_exe().unwrap());
-        cmd.arg("--getfile-only").env("HF_XET_RECONSTRUCT_WRITE_SEQUENTIALLY", "true").stdout(std::process::Stdio::piped()).stderr(std::process::Stdio::null());
-        Some(cmd.spawn().expect("spawn child"))
+    // 0. switches that are read once per process get their own child process:
+    //    seq   = HF_XET_RECONSTRUCT_WRITE_SEQUENTIALLY=true (get_file / batch_get_file through the sequential writer)
+    //    gets1 = HF_XET_NUM_CONCURRENT_RANGE_GETS=1, gets64 = ...=64 (default 16): sections get_file, 1, 2 and the larger plans of 3
+    let mode = std::env::args().find_map(|a| a.strip_prefix("--mode=").map(|m| m.to_string())).unwrap_or_default();
+    let want_gets: usize = match mode.as_str() { "gets1" => 1, "gets64" => 64, _ => 16 };
+    if *cas_client::remote_client::NUM_CONCURRENT_RANGE_GETS != want_gets {
+        println!("infrastructure: HF_XET_NUM_CONCURRENT_RANGE_GETS={want_gets} was not picked up (value {})", *cas_client::remote_client::NUM_CONCURRENT_RANGE_GETS);
+        std::process::exit(2);
+    }
+    let children: Vec<(&str, std::process::Child)> = if !mode.is_empty() { vec![] } else {
+        [("seq", "HF_XET_RECONSTRUCT_WRITE_SEQUENTIALLY", "true"), ("gets1", "HF_XET_NUM_CONCURRENT_RANGE_GETS", "1"), ("gets64", "HF_XET_NUM_CONCURRENT_RANGE_GETS", "64")].into_iter().map(|(m, k, v)| {
+            let mut cmd = std::process::Command::new(std::env::current_exe().unwrap());
+            cmd.arg(format!("--mode={m}")).env_remove("HF_XET_RECONSTRUCT_WRITE_SEQUENTIALLY").env_remove("HF_XET_NUM_CONCURRENT_RANGE_GETS").env(k, v).stdout(std::process::Stdio::piped()).stderr(std::process::Stdio::null());
+            (m, cmd.spawn().expect("spawn child"))
+        }).collect()
     };
     {
         let shapes: [(usize, usize, FetchStyle); 7] = [(1, 1, WholeXorb), (1, 2, ExactSameUrl), (2, 3, Widened), (3, 7, ExactDistinctUrls), (3, 12, Widened), (6, 17, ExactSameUrl), (4, 25, Widened)];
         let plans: Vec<Plan> = shapes.iter().enumerate().map(|(k, (nx, nt, style))| next(&mut rng, &format!("get_file #{k} ({style:?})"), *nx, *nt, *style, false)).collect();
         get_file_section(&env, &mut rng, &base, &store, &plans);
+        batch_section(&env, &base, &store, &plans[1..5]);
     }
-    if getfile_only {
+    if mode == "seq" {
         println!("no violation found");
         return;
     }
     eprintln!("get_file section done at {:?}", t0.elapsed());
-    faulty_store_section(&env, &mut rng, &base, &store, 1_000_000);
-    eprintln!("faulty store section done at {:?}", t0.elapsed());
+    if mode.is_empty() {
+        faulty_store_section(&env, &mut rng, &base, &store, 1_000_000);
+        eprintln!("faulty store section done at {:?}", t0.elapsed());
+        error_path_section(&env, &mut rng, &base, &store, 2_000_000);
+        eprintln!("error path section done at {:?}", t0.elapsed());
+    }
     // 1. hand-made: two non-adjacent chunk ranges of ONE xorb (two fetch entries), equal-sized chunks, slow responses so that both
     //    downloads are in flight together
     for style in [ExactDistinctUrls, ExactSameUrl] {
@@ -720,6 +911,9 @@ fn main() {
     // 3. generated plans
     let shapes: [(usize, usize); 9] = [(1, 1), (1, 2), (2, 3), (1, 7), (3, 12), (6, 17), (4, 25), (2, 40), (6, 40)];
     for (k, (nx, nt)) in shapes.into_iter().enumerate() {
+        if !mode.is_empty() && k < 5 {
+            continue;
+        }
         for style in [WholeXorb, ExactDistinctUrls, ExactSameUrl, Widened] {
             if k % 2 == 1 && matches!(style, WholeXorb | ExactDistinctUrls) {
                 continue;
@@ -729,18 +923,26 @@ fn main() {
         }
     }
     eprintln!("section 3 done at {:?}", t0.elapsed());
+    if !mode.is_empty() {
+        println!("no violation found");
+        return;
+    }
     // 4. plans of 2^32 bytes and more
     big_plans(&env);
     eprintln!("section 4 done at {:?}", t0.elapsed());
-    if let Some(c) = child {
+    for (m, c) in children {
         let out = c.wait_with_output().expect("child output");
         let stdout = String::from_utf8_lossy(&out.stdout);
         if let Some(l) = stdout.lines().find(|l| l.starts_with("WITNESS")) {
-            println!("{l}");
+            println!("{} [child process {m}]", l);
             std::process::exit(1);
         }
+        if out.status.code() == Some(2) {
+            eprintln!("{stdout}");
+            std::process::exit(2);
+        }
         if out.status.code() != Some(0) {
-            witness(format!("the process running get_file with HF_XET_RECONSTRUCT_WRITE_SEQUENTIALLY=true died: {:?}", out.status));
+            witness(format!("the child process '{m}' (seq = sequential writer switch, gets1 / gets64 = NUM_CONCURRENT_RANGE_GETS 1 / 64) died: {:?}", out.status));
         }
     }
     println!("no violation found");
